@@ -611,9 +611,12 @@ C17(c, o) ==
 RetSig(o) == IF RetOk(o) THEN o.text_sha ELSE IF o.ret.kind = "err" THEN "err:" \o o.ret.display ELSE "panic"
 C18(c, o) ==
   LET m == MemoFor(c)
-      k == "c18|" \o ToString(c.opts)
+      (* whether a working formatter is installed is part of the environment of a call, not of its history: calls that find one (however slow) *)
+      (* agree with each other, and so do calls that find none or a failing one, whatever happened in earlier calls of the process             *)
+      env == IF ~Has(c, "fmt_plan") \/ c.fmt_plan \in {"ok", "slow", "very_slow"} THEN "" ELSE "|formatter-fails"
+      k == "c18|" \o ToString(c.opts) \o env
   IN [ dom |-> TRUE,
-       fails |-> SameOrNew(m, k, RetSig(o), "two calls with equal source and options returned different results")
+       fails |-> SameOrNew(m, k, RetSig(o), "two calls with equal source and options returned different results" \o (IF Has(c, "fmt_plan") THEN " (formatter plan of this call: " \o c.fmt_plan \o ")" ELSE ""))
                  \cup (IF Has(o, "repeat_same") THEN Chk(o.repeat_same, "repeated calls in one process returned different text") ELSE {}),
        m |-> MPut(m, k, RetSig(o)) ]
 
